@@ -152,7 +152,12 @@ func readMapStringString(r *messages.Reader) (map[string]string, error) {
 	if n > maxMapEntries {
 		return nil, fmt.Errorf("map length %d exceeds max %d", n, maxMapEntries)
 	}
-	m := make(map[string]string, n)
+	// 条目数来自输入数据：预分配容量以剩余字节数为上限（每个条目至少占用两个 4 字节的长度前缀）
+	mapCap := n
+	if remaining := uint32(r.RemainingSize() / 8); mapCap > remaining {
+		mapCap = remaining
+	}
+	m := make(map[string]string, mapCap)
 	for i := uint32(0); i < n; i++ {
 		k, err := r.ReadString()
 		if err != nil {
@@ -218,7 +223,15 @@ func readClusterView(r *messages.Reader) (*ClusterView, error) {
 	if err := r.ReadInto(&viewID, &epoch, &timestamp, &memLen); err != nil {
 		return nil, err
 	}
-	members := make(map[string]*NodeState, memLen)
+	if memLen > maxMapEntries {
+		return nil, fmt.Errorf("member count %d exceeds max %d", memLen, maxMapEntries)
+	}
+	// 成员数来自输入数据：预分配容量以剩余字节数为上限（每个成员至少占用 5 字节）
+	memCap := memLen
+	if remaining := uint32(r.RemainingSize() / 5); memCap > remaining {
+		memCap = remaining
+	}
+	members := make(map[string]*NodeState, memCap)
 	for i := uint32(0); i < memLen; i++ {
 		var id string
 		var has uint8
